@@ -55,6 +55,18 @@ def same_lits(a, b):
     return [pyobs.val(x) for x in a] == [pyobs.val(x) for x in b]
 
 
+def same_vals(a, b):
+    """equal up to Python equality of the stored values (NaN ~ NaN, 0.0 ~ -0.0), same type"""
+    if len(a) != len(b):
+        return False
+    for x, y in zip(a, b):
+        if type(x) is not type(y):
+            return False
+        if not (x == y or (x != x and y != y)):
+            return False
+    return True
+
+
 def floats_in(values, out):
     for v in values:
         if isinstance(v, (float, np.floating)):
@@ -257,8 +269,19 @@ class C13:
                         if any(l is None for l in a_lits):
                             pyfail = 'cells read after assigning the result back are not plain values'
                         else:
-                            assigned_lit = (L.lst(L.N(int(i)) for i in dm._rowid), L.lst(a_lits))
                             observed['assigned_rowwise'] = [pyobs.jsonable(v) for v in assigned]
+                            # A column assigned to the table is copied and type-checked like any assigned value (C05):
+                            # row i must read what assigning the plain list of the result's cells, in order, gives.
+                            from datamatrix import DataMatrix as _DM
+                            refdm = _DM(length=len(rcells))
+                            refdm.r = type(r)
+                            refdm.r = list(rcells)
+                            if not same_vals(assigned, list(refdm.r)):
+                                pyfail = ('assigning the result back puts %r into the rows, assigning its cells as a list '
+                                          'gives %r' % (assigned, list(refdm.r)))
+                            elif same_lits(assigned, rcells):
+                                # no cell was re-typed by the assignment: judged in Coq against the specified cells too
+                                assigned_lit = (L.lst(L.N(int(i)) for i in dm._rowid), L.lst(a_lits))
                         src_rowwise = [dm[i].c for i in range(len(dm))]
                         if col is dm.c and not same_lits(src_rowwise, cells0):
                             pyfail = pyfail or 'the source column changed when the result was assigned back'
